@@ -19,6 +19,16 @@ CHECKS = [
   "text": _WORKER + " Oracle = executions per scheduling, counter seen per attempt, already_tried+1<=N, next_execution_time==now+policy(k) to "
           "the microsecond, next attempt not before failure+policy(k)-1ms, end state.",
   "note": _MODEL + _SRV},
+ {"property_id": "C06", "level": "exploration", "design_ref": "DESIGN.md §4 C06",
+  "technique": "property-based testing of reschedule arithmetic over generated iteration programmes (pinned clock) plus worker-level recurring scenarios on 3 brokers",
+  "text": _WORKER + " Parameter-level layer drives the real _prepare_retry/_prepare_reschedule through 2-10 iterations with generated "
+          "latency/duration profiles; oracle = one successor, counter reset, TTL restarted, now<S_next<=now+p, S_next>=S_prev+p.",
+  "note": _MODEL + _SRV + " cron schedules are not exercised (croniter not installed)."},
+ {"property_id": "C09", "level": "exploration", "design_ref": "DESIGN.md §4 C09",
+  "technique": "scenario property-based testing with an in-body concurrency counter and a bounded-latency progress oracle, 3 brokers",
+  "text": _WORKER + " Safety oracle: bodies in progress <= tasks_limit at every instant. Progress oracle: no free slot + deliverable message "
+          "without a start for longer than a per-broker pickup allowance; all jobs start within a stated bound ('eventually' = within the bound).",
+  "note": _MODEL + _SRV},
  {"property_id": "C10", "level": "exploration", "design_ref": "DESIGN.md §4 C10",
   "technique": "scenario property-based testing of messages_limit (bound, self-stop, untouched remainder) and of the run-on-enqueue testing modifier",
   "text": _WORKER + " Liveness is decided as 'returns within a 45 s virtual horizon'.",
